@@ -95,7 +95,7 @@ var (
 	getJars     = []string{"faithful", "no-session", "tracking-as-session", "tampered-session"}
 	users       = []string{"alice", "bob", "mallory"}
 	roots       = []string{"https://sp.example.com/", "http://sp.example.com/", "https://sp.example.com:8443/", "https://sp.example.com/app/", "http://localhost:8000/"}
-	pageURLs    = []string{"/", "/a", "/a/b?x=1&y=2", "/page/", "/p?next=%2Fq", "/caf%C3%A9?q=%26", "/app/page", "/deep/er/path.html?u=https%3A%2F%2Fevil.example%2F", "/x?RelayState=zzz", "//evil.example/x", "/a:b/c"}
+	pageURLs    = []string{"/", "/a", "/a/b?x=1&y=2", "/page/", "/p?next=%2Fq", "/caf%C3%A9?q=%26", "/app/page", "/deep/er/path.html?u=https%3A%2F%2Fevil.example%2F", "/x?RelayState=zzz", "//evil.example/x", "///evil.example/x", "////evil.example/x?y=1", "/a:b/c"}
 )
 
 const attackerURL = "https://evil.example/landing"
